@@ -1208,8 +1208,10 @@ func (k *Kernel) checkNextRoundPrecommitViewShift(ctx context.Context, s *kState
 	maj := tmconsensus.ByzantineMajority(vs.AvailablePower)
 	maxPow := vs.PrecommitBlockPower[vs.MostVotedPrecommitHash]
 	if maxPow >= maj {
-		// Need a test in place before handling the ready to commit case.
-		panic("TODO: handle a majority precommit for NextRound")
+		// The round we just jumped to is now the voting round,
+		// and it already holds a majority precommit for a block or for nil,
+		// so run the regular voting-round check to commit or advance.
+		return k.checkVotingPrecommitViewShift(ctx, s)
 	}
 
 	if maxPow >= min {
